@@ -223,26 +223,33 @@ func codecSetParam(d *model.TerminalParamDetails, pf codecParamField, r *fw.Rng)
 	}
 }
 
-// codecParamDetails builds an in-domain parameter list; variant >= 0 forces the
-// single settable field with that position in codecSettableParams.
+// codecParamDetails builds an in-domain parameter list. variant v >= 0 forces a
+// shape: with n settable fields, v < n is the single field number v, n <= v < 2n
+// is field number v-n together with one or two other fields.
 func codecParamDetails(r *fw.Rng, variant int) (model.TerminalParamDetails, int) {
 	var d model.TerminalParamDetails
 	settable := codecSettableParams()
-	if variant >= 0 {
-		codecSetParam(&d, settable[variant%len(settable)], r)
-		return d, 1
-	}
 	n := 0
-	k := r.Pick([]int{0, 1, 1, 2, 3, 5, 8})
 	picked := map[int]bool{}
-	for i := 0; i < k; i++ {
-		j := r.Intn(len(settable))
-		if picked[j] {
-			continue
+	pick := func(j int) {
+		if !picked[j] {
+			picked[j] = true
+			codecSetParam(&d, settable[j], r)
+			n++
 		}
-		picked[j] = true
-		codecSetParam(&d, settable[j], r)
-		n++
+	}
+	if variant >= 0 {
+		pick(variant % len(settable))
+		if variant >= len(settable) {
+			for i := 1 + r.Intn(2); i > 0; i-- {
+				pick(r.Intn(len(settable)))
+			}
+		}
+		return d, n
+	}
+	k := r.Pick([]int{0, 1, 1, 2, 3, 5, 8})
+	for i := 0; i < k; i++ {
+		pick(r.Intn(len(settable)))
 	}
 	if r.Chance(25) {
 		m := 1 + r.Intn(2)
@@ -416,8 +423,11 @@ func codecAttachGenerators(es []*codecEntry) {
 		t.AttachCount = byte(n)
 		for i := 0; i < n; i++ {
 			name := codecRawStr(r, 30)
-			if r.Chance(5) {
+			switch {
+			case r.Chance(5):
 				name = codecRawStrN(r, 255)
+			case r.Chance(10):
+				name = ""
 			}
 			t.T0x1210AlarmItemList = append(t.T0x1210AlarmItemList, model.T0x1210AlarmItem{FileNameLen: byte(len(name)), FileName: name, FileSize: codecU32(r)})
 		}
@@ -451,7 +461,7 @@ func codecAttachGenerators(es []*codecEntry) {
 	set("P0x8103", func(r *fw.Rng, _ codecCtx, variant int) codecMsg {
 		d, n := codecParamDetails(r, variant)
 		return &model.P0x8103{ParamTotal: uint8(n), TerminalParamDetails: d}
-	}).variants = func(string) []int { return codecSeq(len(codecSettableParams())) }
+	}).variants = func(string) []int { return codecSeq(2 * len(codecSettableParams())) }
 	set("P0x8800", func(r *fw.Rng, _ codecCtx, variant int) codecMsg {
 		n := codecListLen(r, 255, variant)
 		p := &model.P0x8800{MultimediaID: codecU32(r), AgainPackageCount: byte(n)}
@@ -714,7 +724,7 @@ func codecAttachWire(by map[string]*codecEntry) {
 		d, n := codecParamDetails(r, -1)
 		p := &model.P0x8103{ParamTotal: uint8(n), TerminalParamDetails: d}
 		b := p.Encode()
-		// ids the struct cannot carry: the unexported 0x084 field, 0x02a/0x02b, other byte-sized ids
+		// ids no struct field carries (0x02a/0x02b) and the byte-sized ids
 		if r.Chance(40) {
 			id := []uint32{0x084, 0x02a, 0x02b, 0x090, 0x094}[r.Intn(5)]
 			ln := 4
